@@ -331,6 +331,18 @@ pub fn check(case: &Case, st: &mut Stats) -> CheckResult {
   Ok(())
 }
 
+fn stage_opts() -> SrcOpts {
+  let opts = SrcOpts::all_langs().with_errors();
+  opts
+}
+
+/// the same stage, driven by bytes (coverage-guided tier)
+pub fn erased() -> crate::fuzz::Erased {
+  let corpus: &'static Corpus = Box::leak(Box::new(Corpus::load()));
+  let opts: &'static SrcOpts = Box::leak(Box::new(stage_opts()));
+  crate::fuzz::Erased::generic("C19", "navigation", move || strategy(opts), move |c, st| interpret(corpus, opts, c, st), check)
+}
+
 pub fn run(cfg: &RunCfg) -> i32 {
   let mut report = Report::new(
     cfg,
@@ -344,10 +356,11 @@ pub fn run(cfg: &RunCfg) -> i32 {
   }
   let corpus = Corpus::load();
   crate::replay_known::<Case>(&mut report, &known, check);
-  let opts = SrcOpts::all_langs().with_errors();
+  let opts = stage_opts();
   let total = cfg.budget(3_000, 100_000);
   let o = drive(cfg, "navigation", total, &known, || strategy(&opts), |c, st| interpret(&corpus, &opts, c, st), check);
   report.absorb("navigation", o);
   report.floor("start_inner_not_last", 0.20, "traversal_start");
+  crate::fuzz::stage(cfg, &mut report, &known, 20000);
   report.finish()
 }
